@@ -75,7 +75,7 @@ def btext(b):
 
 # ---------------------------------------------------------------- generation
 EXTRA_VALUES = [0.1, 2.0 ** -30, -2.5e-7, 1.0 / 3.0, 1e-300, 1.7976931348623157e308, 2.0 ** 40 + 1, -7.0, 5e-324]
-ID_TEXT = ['a', 'b', 'x y', 'ü', '样', 'p;q', "it's", 'a/b', '']
+ID_TEXT = ['a', 'b', 'x y', 'ü', '样', 'p;q', "it's", 'a/b', '', ' lead', 'trail ', ' ', '\t']
 CAT_SLASH = ['a/b', 'x/y/z', '/lead', 'trail/', 'u//v', 'é/ü']
 
 
@@ -87,7 +87,10 @@ def rand_md(rng, n, axis, forced=None):
     def text(i):
         return rng.choice(ID_TEXT) + ('%d' % i if rng.random() < 0.5 else '')
     def lst(i):
-        return ['%s__%s' % (rng.choice('kpcofgs'), rng.choice(['A', 'Bé', 'C c', '样'])) for _ in range(rng.randint(1, 4))]
+        # entries may carry surrounding blanks / tabs or consist of white space only: all of it is content
+        return [rng.choice(['%s__%s' % (rng.choice('kpcofgs'), rng.choice(['A', 'Bé', 'C c', '样'])),
+                            ' p__Firmicutes', 'c__Clostridia ', '\tx', ' ', '\u3000', ' o 1 ', 'a;b'])
+                for _ in range(rng.randint(1, 4))]
     def add(k):
         if k == 'text':
             cats.append((rng.choice(['k', 'Description', 'body site', 'ключ']), text))
@@ -342,6 +345,23 @@ def md_rows(md):
     return [{str(k): md_value(v) for k, v in dict(m).items()} if m is not None else None for m in md]
 
 
+def date_value(cd):
+    """creation date by type and value: a datetime must come back as a datetime"""
+    if isinstance(cd, datetime.datetime):
+        return ['datetime', cd.isoformat()]
+    if isinstance(cd, str):
+        return ['text', cd]
+    return ['other', repr(cd)]
+
+
+def model_date(text):
+    """the model carries the ISO text; datetime.fromisoformat (trusted) decides what the reader makes of it"""
+    try:
+        return ['datetime', datetime.datetime.fromisoformat(text).isoformat()]
+    except ValueError:
+        return ['text', text]
+
+
 def loaded_snapshot(t):
     d = t.matrix_data.copy()
     dense = np.asarray(d.todense(), dtype=float).reshape(d.shape)
@@ -356,7 +376,7 @@ def loaded_snapshot(t):
             else [[] for _ in range(dense.shape[0])],
             'omd': md_rows(t.metadata(axis='observation')), 'smd': md_rows(t.metadata()),
             'type': t.type, 'id': t.table_id, 'genby': t.generated_by,
-            'date': cd.isoformat() if isinstance(cd, datetime.datetime) else cd,
+            'date': date_value(cd),
             'ogmd': gm(t.group_metadata(axis='observation')), 'sgmd': gm(t.group_metadata())}
 
 
@@ -375,7 +395,7 @@ def source_content(case):
     return {'oids': list(s['oids']), 'sids': list(s['sids']),
             'mat': [[fbits(v) for v in row] for row in s['mat']] if c else [[] for _ in range(r)],
             'omd': md(s.get('omd')), 'smd': md(s.get('smd')), 'type': s.get('type') or None,
-            'id': s.get('id') or PLACEHOLDER, 'genby': case['genby'], 'date': case['date'],
+            'id': s.get('id') or PLACEHOLDER, 'genby': case['genby'], 'date': ['datetime', case['date']],
             'ogmd': gm(s.get('ogmd')), 'sgmd': gm(s.get('sgmd'))}
 
 
@@ -468,7 +488,7 @@ def dec_loaded(t):
         return None if not g else {uncps(k): ['s', uncps(v)] for k, v in g}
     return {'oids': [uncps(x) for x in t[0]], 'sids': [uncps(x) for x in t[1]], 'mat': [[unbig(v) for v in row] for row in t[2]],
             'omd': md(t[3]), 'smd': md(t[4]), 'type': uncps(t[5][0]) if t[5] else None, 'id': uncps(t[6]),
-            'genby': uncps(t[7]), 'date': uncps(t[8]), 'ogmd': gm(t[9]), 'sgmd': gm(t[10])}
+            'genby': uncps(t[7]), 'date': model_date(uncps(t[8])), 'ogmd': gm(t[9]), 'sgmd': gm(t[10])}
 
 
 def dec_result(t, f):
